@@ -8,7 +8,7 @@ import ast
 import typing as ty
 
 from ..engine import Analysis
-from ..model import AnalysisError, FuncInfo, ClassInfo, dotted, norm, walk_own, parents, kwarg, is_within
+from ..model import AnalysisError, FuncInfo, ClassInfo, dotted, norm, walk_own, parents, kwarg, is_within, shape, alpha
 from ..report import Collector
 from . import prop
 from .runfn import run_functions, hit_condition
@@ -118,13 +118,18 @@ def checksum_covers_field_metadata(A: Analysis, col: Collector, rule: str):
     else:
         col.fail(rule, ch.qualname, "outputs-class-not-hashed", "_compute_hashes no longer includes self.Outputs: tasks differing in their declared outputs share a cache entry", A.loc(ch.node))
     # skip conditions in _compute_hashes: only Out fields, NOTHING values, container_path
+    AUDITED_SKIPS = {
+        "isinstance(_, Out)": "output fields are not inputs",
+        "getattr(self, _.name) is attrs.NOTHING": "unset fields",
+        "getattr(_, 'container_path', False)": "container_path fields (legacy flag)",
+    }
     for n in walk_own(ch.node):
         if isinstance(n, ast.If) and any(isinstance(s, ast.Continue) for s in n.body):
-            t = norm(n.test)
-            if "isinstance(field, Out)" in t or "attrs.NOTHING" in t or "container_path" in t:
-                col.ok(rule, f"_compute_hashes skips a field only when `{t}`", A.loc(n))
+            t = alpha(n.test, {}, "_", keep=("self", "Out", "attrs"))
+            if t in AUDITED_SKIPS:
+                col.ok(rule, f"_compute_hashes skips a field only when `{norm(n.test)}` ({AUDITED_SKIPS[t]})", A.loc(n))
             else:
-                col.fail(rule, ch.qualname, f"field-skipped-when:{t.replace(' ', '')[:50]}", f"_compute_hashes skips fields when `{t}`: their values do not contribute to the cache identity", A.loc(n))
+                col.fail(rule, ch.qualname, f"field-skipped-when:{t.replace(' ', '')[:50]}", f"_compute_hashes skips fields when `{norm(n.test)}`: their values do not contribute to the cache identity", A.loc(n))
     reads = argv_readset(A)
     if len(reads) < 6:
         raise AnalysisError(f"C06: field-metadata read-set of the argv builder has {len(reads)} attributes; floor 6")
@@ -161,11 +166,19 @@ def function_readset(A: Analysis, col: Collector, rule: str):
     else:
         col.fail(rule, fn.qualname, "function-source-not-hashed", "bytes_repr_function no longer reads the function source", A.loc(fn.node))
     # the body statements and the args node must both be dumped
-    dumps = [norm(c.args[0]) for f in [fn] + list(fn.nested.values()) for c in A.calls(f) if isinstance(c.func, ast.Name) and c.func.id == "dump_ast" and c.args]
-    if any(d.endswith(".args") for d in dumps) and any(d in ("stmt",) or "body" in d for d in dumps):
+    dump_calls = [c for f in [fn] + list(fn.nested.values()) for c in A.calls(f) if isinstance(c.func, ast.Name) and c.func.id in fn.nested and c.args and any("ast.dump" in A.callee_names(k, fn.nested[c.func.id]) for k in A.calls(fn.nested[c.func.id]))]
+    dumps = [norm(c.args[0]) for c in dump_calls]
+    body_dumped = False
+    for c in dump_calls:
+        for p in parents(c):
+            if isinstance(p, ast.For) and isinstance(p.iter, ast.Attribute) and p.iter.attr == "body" and isinstance(p.target, ast.Name) and norm(c.args[0]) == p.target.id:
+                body_dumped = True
+        if isinstance(c.args[0], ast.Attribute) and c.args[0].attr == "body":
+            body_dumped = True
+    if any(d.endswith(".args") for d in dumps) and body_dumped:
         col.ok(rule, "both the argument list (names, defaults) and every body statement are dumped", A.loc(fn.node))
     else:
-        col.fail(rule, fn.qualname, "function-ast-partially-dumped:" + "+".join(sorted(dumps)), f"only {dumps} of the function AST is serialised", A.loc(fn.node))
+        col.fail(rule, fn.qualname, "function-ast-partially-dumped:" + ("args" if any(d.endswith(".args") for d in dumps) else "") + ("+body" if body_dumped else ""), f"only {dumps} of the function AST is serialised", A.loc(fn.node))
     if names & {"__closure__", "inspect.getclosurevars", "cell_contents"}:
         col.ok(rule, "bytes_repr_function serialises the closure cells", A.loc(fn.node))
     else:
